@@ -158,3 +158,72 @@ Proof.
   destruct (check_preds st2 [e]); [|exact I].
   destruct (exec_list body st2); reflexivity.
 Qed.
+
+(** ** lift_scope: an [if] whose guard depends only on variables other than the loop iterator can be lifted
+    out of the loop.  The guard must be [env_only]: a guard that reads configuration state written by the body
+    is exactly the case in which the implementation's rewrite is wrong (known finding C01-lift_scope-config-guard). *)
+Fixpoint mentions (i : sym) (e : expr) : bool :=
+  match e with
+  | Var y => Pos.eqb y i
+  | USub a => mentions i a
+  | BinOp _ a b => mentions i a || mentions i b
+  | _ => false
+  end.
+
+Lemma iter_loop_noop : forall n k f st, (forall k st, f k st = Ok st) -> iter_loop n k f st = Ok st.
+Proof. induction n as [|n IH]; intros; cbn [iter_loop]; [reflexivity|]. rewrite H. cbn [bind]. apply IH, H. Qed.
+
+Lemma eval_bind_fresh : forall e i bd st, env_only e = true -> mentions i e = false ->
+  eval (bind_var i bd st) e = eval st e.
+Proof.
+  induction e; intros i bd st He Hm; cbn [env_only mentions] in *; try discriminate He; cbn [eval].
+  - cbn [bind_var s_env lookup]. rewrite Hm. reflexivity.
+  - reflexivity.
+  - reflexivity.
+  - rewrite (IHe i bd st He Hm). reflexivity.
+  - apply andb_true_iff in He as [H1 H2]. apply orb_false_iff in Hm as [M1 M2].
+    rewrite (IHe1 i bd st H1 M1), (IHe2 i bd st H2 M2). reflexivity.
+Qed.
+
+Lemma iter_loop_ext_env : forall E f g,
+  (forall k s0, s_env s0 = E -> f k s0 = g k s0) ->
+  (forall k s0 s1, s_env s0 = E -> g k s0 = Ok s1 -> s_env s1 = E) ->
+  forall n k st, s_env st = E -> iter_loop n k f st = iter_loop n k g st.
+Proof.
+  intros E f g Hfg Hinv. induction n as [|n IH]; intros k st Hs; cbn [iter_loop]; [reflexivity|].
+  rewrite (Hfg k st Hs). destruct (g k st) as [s1|] eqn:Eg; cbn [bind]; [|reflexivity].
+  apply IH. eapply Hinv; eassumption.
+Qed.
+
+Theorem rule_lift_if_out_of_for : forall i lo hi c a par st st' bc,
+  env_only c = true -> mentions i c = false -> eval st c = Ok (VBool bc) ->
+  exec_list [For i lo hi [If c a []] par] st = Ok st' ->
+  exec_list [If c [For i lo hi a par] []] st = Ok st'.
+Proof.
+  intros i lo hi c a par st st' bc He Hm Ec. rewrite !single, exec_For, exec_If, Ec. cbn [bind as_bool].
+  destruct (eval st lo) as [vl|] eqn:El; cbn [bind]; [|discriminate].
+  destruct (as_int vl) as [l|] eqn:Al; cbn [bind]; [|discriminate].
+  destruct (eval st hi) as [vh|] eqn:Eh; cbn [bind]; [|discriminate].
+  destruct (as_int vh) as [h|] eqn:Ah; cbn [bind]; [|discriminate].
+  destruct (h <? l) eqn:Hhl; [discriminate|].
+  (* the guard has the same value in every iteration *)
+  assert (Hc : forall k s0, s_env s0 = s_env st -> eval (bind_var i (BVal (VInt k)) s0) c = Ok (VBool bc)).
+  { intros k s0 Hs. rewrite (eval_bind_fresh c i _ s0 He Hm), <- Ec. apply env_only_eval; assumption. }
+  destruct bc.
+  - (* guard true: every iteration runs the body *)
+    unfold scoped. rewrite single, exec_For, El, Eh. cbn [bind]. rewrite Al, Ah. cbn [bind]. rewrite Hhl.
+    rewrite (iter_loop_ext_env (s_env st) (loop_body i [If c a []]) (loop_body i a)).
+    + intro H. rewrite H. cbn [bind]. rewrite <- (iter_loop_env _ _ _ _ _ _ H), with_env_same. reflexivity.
+    + intros k s0 Hs. unfold loop_body. rewrite single, exec_If, (Hc k s0 Hs). cbn [bind as_bool]. unfold scoped.
+      destruct (exec_list a _); cbn [bind]; reflexivity.
+    + intros k s0 s1 Hs. unfold loop_body. destruct (exec_list a _); cbn [bind]; [|discriminate].
+      intro H; inversion H; subst. exact Hs.
+    + reflexivity.
+  - (* guard false: nothing happens *)
+    rewrite (iter_loop_ext_env (s_env st) (loop_body i [If c a []]) (fun _ s0 => Ok s0)).
+    + rewrite iter_loop_noop by reflexivity. intro H; inversion H; subst. unfold scoped. cbn. rewrite with_env_same. reflexivity.
+    + intros k s0 Hs. unfold loop_body. rewrite single, exec_If, (Hc k s0 Hs). cbn [bind as_bool]. unfold scoped. cbn.
+      destruct s0; reflexivity.
+    + intros k s0 s1 Hs H; inversion H; subst; exact Hs.
+    + reflexivity.
+Qed.
